@@ -16,7 +16,7 @@ FIXTURES = sorted(glob.glob(os.path.join(os.environ.get("VERIF_REPO", "/repo"), 
 # profile name, quick count, thorough count
 PLAN = {
     "C01": [("chain_subslot", 70, 2500), ("teams_alts", 30, 1000), ("alap_profile", 20, 800), ("alap_pack", 40, 1500), ("mixed_subslot", 40, 1500)],
-    "C02": [("calendars", 90, 3500), ("dst_weekend", 40, 1500), ("group_hours", 25, 800), ("year_end", 30, 1200)],
+    "C02": [("calendars", 90, 3500), ("dst_weekend", 40, 1500), ("group_hours", 25, 800), ("year_end", 30, 1200), ("group_matrix", 48, 432)],
     "C03": [("chain_subslot", 50, 2000), ("teams_alts", 50, 2000), ("alap_profile", 20, 800), ("limits_profile", 40, 1500), ("alap_pack", 30, 1000), ("mixed_subslot", 20, 800)],
     "C04": [("dags", 100, 4000), ("alap_profile", 40, 1500), ("container_gate", 15, 600), ("dup_leaf_ids", 15, 600), ("dup_alap", 15, 600), ("dags_alap", 30, 1000), ("staged_containers", 30, 1000), ("ms_bounds", 20, 800), ("gap_bounds", 30, 1000)],
     "C05": [("limits_profile", 110, 4000), ("year_end", 25, 1000)],
